@@ -111,6 +111,26 @@ fn c01_family<S: Sch>(t: Tier, seed: u64, out: &mut Vec<Entry>) {
         let mut c = mk(vec![PolySpec::new(2).conc(), PolySpec::new(2).conc().hide(1)], 1);
         c.rng_nonzero = true;
         add("2p1z-plain-then-hiding", c, Mode::Batch);
+        // a batch whose proofs are of both kinds: a hiding polynomial at one point label, a plain one at another
+        for (tag, first_hides) in [("hiding@z0-plain@z1", true), ("plain@z0-hiding@z1", false)] {
+            let (a, b) = (PolySpec::new(2).conc().hide(1), PolySpec::new(2).conc());
+            let mut c = mk(if first_hides { vec![a, b] } else { vec![b, a] }, 1).points(2, vec![(0, 0), (1, 1)]);
+            c.rng_nonzero = true;
+            add(&format!("2p2z-batch-{}", tag), c, Mode::Batch);
+        }
+        // the zero polynomial with a hiding bound, alone and next to a non-zero one
+        let mut c = mk(vec![PolySpec::new(2).zero().hide(1)], 1);
+        c.rng_nonzero = true;
+        add("1p1z-zero-poly-hide1", c, Mode::Single);
+        let mut c = mk(vec![PolySpec::new(2).conc().hide(1), PolySpec::new(2).zero().hide(1)], 1);
+        c.rng_nonzero = true;
+        add("2p1z-zero-poly-hide1-batch", c, Mode::Batch);
+    }
+    // the zero polynomial: alone, and between non-zero ones in one opening
+    add("1p1z-zero-poly", mk(vec![PolySpec::new(2).zero()], 0), Mode::Single);
+    add("3p1z-zero-poly-middle", mk(vec![PolySpec::new(2).conc(), PolySpec::new(2).zero(), PolySpec::new(2).conc()], 0), Mode::Batch);
+    if S::BOUNDS {
+        add("1p1z-zero-poly-bound", mk(vec![PolySpec::new(2).zero().bound(1)], 0), Mode::Single);
     }
     if S::BOUNDS {
         // one opening over polynomials with different degree bounds (and one without)
@@ -198,6 +218,11 @@ fn c02_family<S: Sch>(t: Tier, seed: u64, out: &mut Vec<Entry>) {
     add("1p1z-val", mk(vec![PolySpec::new(len)], 0), Mode::Single, Kind::Value(0), false);
     add("2p1z-val@1", mk(vec![PolySpec::new(2), PolySpec::new(2)], 0), Mode::Single, Kind::Value(1), false);
     add("1p2z-batch-val@1", mk(vec![PolySpec::new(2)], 0).points(2, vec![(0, 0), (0, 1)]), Mode::Batch, Kind::Value(1), false);
+    // the zero polynomial (identity commitment in the homomorphic schemes): a non-zero claimed value, alone and
+    // next to a non-zero polynomial
+    add("1p1z-val-zero-poly", mk(vec![PolySpec::new(2).zero()], 0), Mode::Single, Kind::Value(0), false);
+    add("2p1z-val@1-zero-poly", mk(vec![PolySpec::new(2).conc(), PolySpec::new(2).zero()], 0), Mode::Single, Kind::Value(1), false);
+    add("2p1z-val@0-next-to-zero-poly", mk(vec![PolySpec::new(2).conc(), PolySpec::new(2).zero()], 0), Mode::Batch, Kind::Value(0), false);
     // every position of a batched opening; the two point labels carry independent symbolic points, so that the
     // shared-point-value case is the solver's to find wherever the code compares points
     add("1p2z-batch-val@0", mk(vec![PolySpec::new(2)], 0).points(2, vec![(0, 0), (0, 1)]), Mode::Batch, Kind::Value(0), false);
